@@ -355,8 +355,7 @@ func (e *explorer) failed(c cfg, history [][]step, word []step) {
 	if try(append(append([][]step{}, history...), word)) {
 		return
 	}
-	os.RemoveAll(e.dirs.root)
-	fw.Fatalf("non-reproducible mismatch: cfg %s word {%s} after %d words in its world", c, wordString(word), len(history))
+	fatalf("non-reproducible mismatch: cfg %s word {%s} after %d words in its world", c, wordString(word), len(history))
 }
 
 func singleActor(word []step) bool {
@@ -763,11 +762,6 @@ func main() {
 	run := fw.Start("C11", "model_checking")
 	dirs := newHostDirs()
 	defer os.RemoveAll(dirs.root)
-	if len(os.Args) > 2 && os.Args[2] == "probe" {
-		probe(dirs)
-		os.RemoveAll(dirs.root)
-		return
-	}
 	if len(os.Args) > 2 && os.Args[2] == "bench" {
 		bench(dirs)
 		os.RemoveAll(dirs.root)
@@ -838,11 +832,11 @@ func main() {
 
 func replay() {
 	if len(os.Args) < 3 {
-		fw.Fatalf("usage: replay <file>")
+		fatalf("usage: replay <file>")
 	}
 	b, err := os.ReadFile(os.Args[2])
 	if err != nil {
-		fw.Fatalf("%v", err)
+		fatalf("%v", err)
 	}
 	var doc struct {
 		Signature string `json:"signature"`
@@ -853,7 +847,7 @@ func replay() {
 		} `json:"replay"`
 	}
 	if err := json.Unmarshal(b, &doc); err != nil {
-		fw.Fatalf("%v", err)
+		fatalf("%v", err)
 	}
 	dirs := newHostDirs()
 	defer os.RemoveAll(dirs.root)
